@@ -52,7 +52,9 @@ void srv_tunnel_dns(void);			/* tunnel_dns on the injected datagram */
 void srv_tunnel_tun(void);
 void srv_set_ns_ip(const unsigned char *ip4);	/* NULL: INADDR_ANY */
 void srv_set_bind_port(int port);
-void srv_sweep(void);				/* the send-real-soon sweep of tunnel() */
+void srv_sweep(void);
+void srv_sweep_clear(void);
+void srv_sweep_send(void);				/* the send-real-soon sweep of tunnel() */
 void srv_handle_null_request(struct query *q, int domain_len);
 const char *srv_topdomain(void);
 struct tun_user *srv_user(int i);
